@@ -236,13 +236,12 @@ type wireModel struct{ hist []hpack.HeaderField }
 
 const hpackTableSize = 4096
 
-func (m *wireModel) lens(r seqRPC) (hdrLen, trlLen int) {
+func (m *wireModel) lensOf(hdr, trl []hpack.HeaderField) (hdrLen, trlLen int) {
 	var buf bytes.Buffer
 	enc := hpack.NewEncoder(&buf)
 	for _, f := range m.hist {
 		_ = enc.WriteField(f)
 	}
-	hdr, trl := serverBlocks(r)
 	buf.Reset()
 	for _, f := range hdr {
 		_ = enc.WriteField(f)
@@ -255,13 +254,23 @@ func (m *wireModel) lens(r seqRPC) (hdrLen, trlLen int) {
 	return hdrLen, buf.Len()
 }
 
-func (m *wireModel) commit(r seqRPC) {
+func (m *wireModel) lens(r seqRPC) (hdrLen, trlLen int) {
 	hdr, trl := serverBlocks(r)
-	for _, f := range append(hdr, trl...) {
-		if f.Size() <= hpackTableSize {
-			m.hist = append(m.hist, f)
+	return m.lensOf(hdr, trl)
+}
+
+// lensAndCommit predicts the block lengths of r and appends r to the history.
+func (m *wireModel) lensAndCommit(r seqRPC) (hdrLen, trlLen int) {
+	hdr, trl := serverBlocks(r)
+	hdrLen, trlLen = m.lensOf(hdr, trl)
+	for _, fs := range [][]hpack.HeaderField{hdr, trl} {
+		for _, f := range fs {
+			if f.Size() <= hpackTableSize {
+				m.hist = append(m.hist, f)
+			}
 		}
 	}
+	return hdrLen, trlLen
 }
 
 // tune sets the coarse knob (and, when exact, the fine knob) so that eval()
@@ -703,10 +712,10 @@ func genSeqPlan(rt *rapid.T) seqPlan {
 	}
 	limited := p.MaxHeaderList != 0
 	forced := -1
-	if rapid.IntRange(0, 99).Draw(rt, "force_large") < 45 {
+	if rapid.IntRange(0, 99).Draw(rt, "force_large") < 38 {
 		forced = rapid.IntRange(0, n-2).Draw(rt, "large_pos")
 	}
-	bigClasses := []string{cls64k, cls64k, cls100k, cls100k}
+	bigClasses := []string{cls64k, cls64k, cls64k, cls100k}
 	classes := []string{clsTiny, clsTiny, clsTiny, clsTiny, clsTiny, clsTiny, clsTiny, clsTiny, clsTiny, clsTiny, clsTiny, clsTiny,
 		cls4k, cls4k, cls16k, cls16k, cls16k, cls64k, cls64k, cls100k}
 	if vk.Thorough() {
@@ -734,7 +743,9 @@ func genSeqPlan(rt *rapid.T) seqPlan {
 		derived := false
 		if i > 0 && i != forced && rapid.IntRange(0, 99).Draw(rt, "derive") < 30 {
 			src := p.RPCs[rapid.IntRange(0, i-1).Draw(rt, "derive_from")]
-			if c := cost(src.Class); c <= budget {
+			// copies of the really big ones are kept rare (cost)
+			rare := (src.Class == cls100k || src.Class == clsMiB) && rapid.IntRange(0, 3).Draw(rt, "derive_big") != 0
+			if c := cost(src.Class); c <= budget && !rare {
 				budget -= c
 				r = derive(rt, src)
 				derived = true
@@ -754,8 +765,7 @@ func genSeqPlan(rt *rapid.T) seqPlan {
 				applySize(rt, &r, class, i == forced, m, limited)
 			}
 		}
-		r.ModelHdr, r.ModelTrl = m.lens(r)
-		m.commit(r)
+		r.ModelHdr, r.ModelTrl = m.lensAndCommit(r)
 		p.RPCs = append(p.RPCs, r)
 	}
 	return p
